@@ -1131,6 +1131,86 @@ func genOp1(r *hlib.Rand) string {
 	}
 }
 
+// genRtOp draws one `X.rt` op (an encoder call on a valid value); want != "" fixes the codec.
+func genRtOp(r *hlib.Rand, want string) string {
+	for {
+		var op string
+		switch x := r.Intn(100); {
+		case x < 40: // the encoders that build their result in a buffer
+			op = genRaftCmd(r)
+		case x < 60:
+			op = genMan(r)
+		case x < 72:
+			op = genHdrEnt(r)
+		default:
+			op = genOp1(r)
+		}
+		name := op
+		if i := strings.IndexByte(op, ' '); i >= 0 {
+			name = op[:i]
+		}
+		if !strings.HasSuffix(name, ".rt") || (want != "" && name != want) {
+			continue
+		}
+		return op
+	}
+}
+
+// genHoldCase: the multi-payload case.  Encode x1..xk (k = 2..6; same codec or mixed; equal
+// and different sizes), keeping every encoder result alive, THEN decode all of them in another
+// order, comparing each with its input and its bytes with the bytes it had when it was
+// produced (an encoder that hands out memory it reuses for a later call fails here).
+// Garbage collections are interleaved in half of the cases: without one a sync.Pool hands
+// the same buffer straight back, with two the pools are emptied - both paths are exercised.
+func genHoldCase(r *hlib.Rand) []string {
+	k := 2 + r.Intn(5)
+	want := ""
+	if r.Chance(60) {
+		op := genRtOp(r, "")
+		want = op[:strings.IndexByte(op, ' ')]
+	}
+	withGC := r.Bool()
+	var ops []string
+	var first string
+	for i := 0; i < k; i++ {
+		op := genRtOp(r, want)
+		if i == 0 {
+			first = op
+		} else if r.Chance(15) {
+			op = first // the very same value again
+		}
+		ops = append(ops, fmt.Sprintf("hold %d %s", i, op))
+		if withGC && r.Chance(30) {
+			ops = append(ops, "gc")
+		}
+		if i > 0 && r.Chance(25) { // early look at an older payload
+			ops = append(ops, fmt.Sprintf("check %d", r.Intn(i)))
+		}
+	}
+	order := make([]int, k)
+	for i := range order {
+		order[i] = i
+	}
+	for i := k - 1; i > 0; i-- {
+		j := r.Intn(i + 1)
+		order[i], order[j] = order[j], order[i]
+	}
+	for n, i := range order {
+		ops = append(ops, fmt.Sprintf("check %d", i))
+		if withGC && n == 0 && r.Chance(40) {
+			ops = append(ops, "gc")
+		}
+	}
+	if r.Chance(40) { // overwrite a slot, then every survivor must still be intact
+		j := r.Intn(k)
+		ops = append(ops, fmt.Sprintf("hold %d %s", j, genRtOp(r, want)))
+		for i := 0; i < k; i++ {
+			ops = append(ops, fmt.Sprintf("check %d", i))
+		}
+	}
+	return ops
+}
+
 func (e *codecEngine) Gen(r *hlib.Rand, tier string) []string {
 	// hlib derives case k of seed s+1 from the same splitmix state as case k+1 of seed s
 	// (NewRand(seed) is linear in the seed), so consecutive seeds would replay almost the same
@@ -1139,6 +1219,9 @@ func (e *codecEngine) Gen(r *hlib.Rand, tier string) []string {
 		if sd, err := strconv.ParseUint(f.Value.String(), 10, 64); err == nil {
 			r = hlib.NewRand(r.U64() ^ (sd+1)*0xD6E8FEB86659FD93)
 		}
+	}
+	if r.Chance(15) {
+		return genHoldCase(r)
 	}
 	n := 8 + r.Intn(17)
 	if tier == "thorough" {
